@@ -31,15 +31,15 @@ type termAnomaly struct {
 }
 
 type termResult struct {
-	Inputs    int            `json:"inputs"`
-	Runs      int            `json:"runs"`
-	Exit      map[string]int `json:"exit"` // exit status histogram per mode
-	Anomalies []termAnomaly  `json:"anomalies"`
-	MaxMillis int64          `json:"max_millis"`
-	Sources   map[string]int `json:"sources"`
-	Samples   []string       `json:"samples"`
-	LexChecked int           `json:"lex_checked"` // kind scenarios whose real token kinds were compared with the model's
-	LexDrift   []string      `json:"lex_drift"`   // scenarios where the real lexer produced other kinds than intended
+	Inputs     int            `json:"inputs"`
+	Runs       int            `json:"runs"`
+	Exit       map[string]int `json:"exit"` // exit status histogram per mode
+	Anomalies  []termAnomaly  `json:"anomalies"`
+	MaxMillis  int64          `json:"max_millis"`
+	Sources    map[string]int `json:"sources"`
+	Samples    []string       `json:"samples"`
+	LexChecked int            `json:"lex_checked"` // kind scenarios whose real token kinds were compared with the model's
+	LexDrift   []string       `json:"lex_drift"`   // scenarios where the real lexer produced other kinds than intended
 }
 
 var realKind = map[string]string{
